@@ -426,6 +426,47 @@ def sig_diff(before, after):
 NPROBE = 3            # probes 0..2: plain feeds (overridable defaults omitted); probe 3 (if any): overrides supplied
 
 
+# ---- trace hooks (ONNXSCRIPT_VERIF=1): recorded executions of the constant folder, validated by TLC against FoldApply.tla ---------
+def _traces_begin():
+    from onnxscript._internal import _verif
+
+    if _verif.ENABLED:
+        del _verif.traces[:]
+
+
+def _traces_take(v, raised=False, keep_rewriter=False):
+    """Attach the folder traces (and, on request, the rewriter traces) recorded since _traces_begin() to the variant record."""
+    from onnxscript._internal import _verif
+
+    if not _verif.ENABLED:
+        return
+    if raised:
+        _verif.abort_all()
+    fo = [t for t in _verif.traces if t["kind"] == "folder" and t["events"]
+          and sum(len(g["nodes"]) for g in t["meta"]["model"]["graphs"]) <= 60][:2]
+    if fo:
+        v["foldtraces"] = fo
+    if keep_rewriter and not raised:
+        v["rwtraces"] = [t for t in _verif.traces if t["kind"] == "rewriter" and any(e["ev"] == "Apply" for e in t["events"])][:4]
+    del _verif.traces[:]
+
+
+def fold_traces_of(results, label):
+    """All folder traces attached to replay results (list of (case, result)), with ids."""
+    out = []
+    for case, res in results:
+        if not isinstance(res, dict):
+            continue
+        variants = list(res.get("variants") or [])
+        for r in res.get("runs") or []:
+            variants += r.get("variants") or []
+        for v in variants:
+            for t in v.pop("foldtraces", None) or []:
+                t["id"] = f"{label}/{len(out)}/{v['name']}"
+                out.append(t)
+    return out
+
+
 def replay_case(arg):
     """arg = (idx, case, variant names, want_abstract).  Returns observations only (small, picklable)."""
     import onnx
@@ -455,12 +496,15 @@ def replay_case(arg):
         out["variants"].append(v)
         m1 = onnx.ModelProto()
         m1.CopyFrom(m)
+        _traces_begin()
         try:
             m2 = apply_variant(vn, m1)
         except Exception as e:  # noqa: BLE001
             v["exc"] = exc_text(e)
             v["site"] = exc_site(e)
+            _traces_take(v, raised=True)
             continue
+        _traces_take(v)
         try:
             onnx.checker.check_model(m2)
         except Exception as e:  # noqa: BLE001
@@ -850,12 +894,15 @@ def replay_library(arg):
             r["variants"].append(v)
             m1 = onnx.ModelProto()
             m1.CopyFrom(lm)
+            _traces_begin()
             try:
                 m2 = apply_variant(vn, m1)
             except Exception as e:  # noqa: BLE001
                 v["exc"] = exc_text(e)
                 v["site"] = exc_site(e)
+                _traces_take(v, raised=True)
                 continue
+            _traces_take(v)
             try:
                 onnx.checker.check_model(m2)
             except Exception as e:  # noqa: BLE001
@@ -1394,21 +1441,17 @@ def replay_family(arg):
         out["variants"].append(v)
         m1 = onnx.ModelProto()
         m1.CopyFrom(m)
-        from onnxscript._internal import _verif
-
-        del _verif.traces[:]
+        _traces_begin()
         try:
             m2 = _apply_family_variant(vn, m1)
         except Exception as e:  # noqa: BLE001
             v["exc"] = exc_text(e)
             v["site"] = exc_site(e)
-            _verif.abort_all()
-            del _verif.traces[:]
+            _traces_take(v, raised=True)
             continue
-        if want_abs and _verif.ENABLED:
-            # the recorded rewriter traces of this entry point (validated by TLC against RewriteApply.tla in C04)
-            v["rwtraces"] = [t for t in _verif.traces if t["kind"] == "rewriter" and any(e["ev"] == "Apply" for e in t["events"])][:4]
-        del _verif.traces[:]
+        # the recorded folder traces, and for C04 the rewriter traces, of this entry point (validated by TLC against
+        # FoldApply.tla / RewriteApply.tla)
+        _traces_take(v, keep_rewriter=want_abs)
         v["changed"] = op_multiset(m2) != op_multiset(m)
         try:
             onnx.checker.check_model(m2)
